@@ -65,6 +65,7 @@ def main():
     import cobra
 
     acc = Acc()
+    acc.journal_path = outfile + ".journal"
     want = os.environ.get("CV_COBRA_SRC") or "/repo/src"
     if not os.path.abspath(cobra.__file__).startswith(os.path.abspath(want)):
         acc.harness_error(f"cobra imported from {cobra.__file__}, expected {want}")
